@@ -316,8 +316,19 @@ def run(ctx, rep):
                 continue
             an = analyze_fn(F, fn)
 
+            from .c08 import _bound_to_stream_len
+            sl_params = {T.param(i) for i in range(1, an.body["arg_count"] + 1) if an.names.get(i) == "stream_len" and _bound_to_stream_len(an, i)}
+
             def mentions(t):
-                return any(x.op == "proj" and x.args[1] == sl for x in t.subterms())
+                if t in sl_params:
+                    return True        # a parameter every caller binds to the reader's stream_len
+                # occurrences inside the call of load_bytes' private fetch helper do not count: its successful result is the bytes of the
+                # requested range whatever the stream length is (the helper's own use of the length is judged in the helper)
+                if t.op == "proj" and t.args[1] == sl:
+                    return True
+                if t.op == "call" and t.args[0] in io_home(F):
+                    return False
+                return any(mentions(c) for c in t.children())
 
             for b, d in an.switches.items():
                 if b in an.entry and mentions(d):
